@@ -219,6 +219,9 @@ def inputs(tier, seed):
     big = bytes.fromhex('02820800') + b'\x7f' + b'\xff' * 2047
     out += [big, b'\x30\x80' + big + b'\x05\x00\x00\x00', b'\x30\x82\x10\x08' + big + big,
             bytes.fromhex('31820804') + big]
+    # records with OPTIONAL members left out (guides with a value constraint on such a member must cope), a CHOICE
+    out += [b'\x30\x03\x01\x01\xff', b'\x30\x06\x02\x01\x03\x01\x01\xff', b'\x30\x06\x02\x01\x09\x01\x01\xff',
+            b'\x30\x80\x01\x01\x00\x00\x00', b'\x31\x03\x01\x01\xff', b'\x02\x01\x05', b'\x01\x01\xff']
     # explicit tags with nothing / too much inside
     out += [b'\xa0\x00', b'\xa0\x80\x00\x00', b'\xa1\x06\x02\x01\x01\x02\x01\x02', b'\xa1\x80\x02\x01\x01\x02\x01\x02\x00\x00']
     # single-edit neighbours of valid encodings
